@@ -262,7 +262,7 @@ func paramByType(e *pw.Engine, pred func(t types.Type) bool) *pw.Val {
 // c06WithTTL decides the merge rule of WithTTL.
 func (c *Ctx) c06WithTTL() {
 	r := c.R
-	e, paths, _, err := c.runFunc("WithTTL", pw.Policy{})
+	e, paths, _, err := c.runFunc("WithTTL", pw.Policy{Inline: inlineUnexported, MaxDepth: 2})
 	if err != nil {
 		r.Unknown("R06.3", "WithTTL", err.Error())
 		return
@@ -314,7 +314,7 @@ func (c *Ctx) c06WithTTL() {
 		}
 		ret := p.Ret[0]
 		fresh := ret != nil && ret.Kind == pw.KCall && ret.Ev.Role == "Std:context.WithValue" && len(ret.Ev.Args) == 3 &&
-			ret.Ev.Args[0] == ctx && ret.Ev.Args[2].Kind == pw.KAddr && ret.Ev.Args[2].Obj == ttl.Obj
+			ret.Ev.Args[0] == ctx && ret.Ev.Args[2].Kind == pw.KAddr && (ret.Ev.Args[2].Obj == ttl.Obj || ret.Ev.Args[2].Src == ttl)
 		if !(updKnown && updT && present) {
 			// must install a fresh cell holding ttl, old cell untouched
 			nFresh++
@@ -626,7 +626,7 @@ func noInline(*types.Func, int) bool { return false }
 func (c *Ctx) c06Accessors() {
 	r := c.R
 	// TTL(ctx)
-	if e, paths, _, err := c.runFunc("TTL", pw.Policy{Inline: noInline, Pure: func(*types.Func) bool { return false }}); err != nil {
+	if e, paths, _, err := c.runFunc("TTL", pw.Policy{Inline: inlineUnexported, MaxDepth: 2, Pure: func(*types.Func) bool { return false }}); err != nil {
 		r.Unknown("R06.7", "TTL", err.Error())
 	} else {
 		zero := e.IntConst(0)
@@ -676,7 +676,7 @@ func (c *Ctx) c06Accessors() {
 		}
 	}
 	// SkipRead(ctx)
-	if e, paths, _, err := c.runFunc("SkipRead", pw.Policy{Inline: noInline, Pure: func(*types.Func) bool { return false }}); err != nil {
+	if e, paths, _, err := c.runFunc("SkipRead", pw.Policy{Inline: inlineUnexported, MaxDepth: 2, Pure: func(*types.Func) bool { return false }}); err != nil {
 		r.Unknown("R06.7", "SkipRead", err.Error())
 	} else {
 		bad := false
